@@ -283,7 +283,9 @@ def oracle(case, obs):
 # the real ThreadPool (OS threads): oracle-only cases {"kind": "pool", ...}; not modelled in Coq
 #
 # case = {"kind": "pool", "min": m, "max": M, "pre": k (tasks submitted before start()), "adjust": [m2, M2] | None,
-#         "tasks": [[how, cb], ...]}   how in POOL_KINDS; cb: 1 = callInThreadWithCallback, 0 = callInThread
+#         "tasks": [[how, cb], ...],   how in POOL_KINDS; cb: 1 = callInThreadWithCallback, 0 = callInThread
+#         "saw": [i, ...] startAWorker() before task i (len(tasks) = before stop()),
+#         "fault": k  the k-th call of the thread factory raises RuntimeError("can't start new thread") once}
 
 POOL_KINDS = ["ret", "exc", "sysexit", "genexit", "base", "slow"]
 
@@ -316,6 +318,20 @@ def pool_impl(case) -> str:
     calls = {}            # task index -> list of (ok, type name / value)
     ran = {}
     conc = [0, 0]         # current, max
+    made = [0]            # thread factory calls
+    over = []             # (workers, max) when a thread was created although workers >= max
+    fault = case.get("fault")
+
+    def factory(*a, **kw):
+        k = made[0]
+        made[0] += 1
+        if fault is not None and k == fault:
+            raise RuntimeError("can't start new thread")      # what the OS says under thread exhaustion
+        if tp.workers >= tp.max:
+            over.append((tp.workers, tp.max))
+        return threading.Thread(*a, **kw)
+
+    tp.threadFactory = factory
 
     def mk(i, how):
         def f():
@@ -348,21 +364,42 @@ def pool_impl(case) -> str:
                                                 "?" if ok else res.type.__name__))
         return on
 
+    refused = set()
+    notes = []
+
+    def guarded(what, fn):
+        """a call that creates threads may be refused visibly (the factory's RuntimeError reaches the caller)"""
+        try:
+            fn()
+            return True
+        except RuntimeError as e:
+            if "can't start new thread" not in str(e):
+                raise
+            notes.append(what)
+            return False
+
     tasks = case["tasks"]
+    saw = case.get("saw") or []
     started = False
     try:
         for i, (how, c) in enumerate(tasks):
             if i == case["pre"]:
-                tp.start()
+                guarded("start", tp.start)
                 started = True
+            for _ in range(saw.count(i)):
+                guarded("startAWorker", tp.startAWorker)
             if case["adjust"] and i == len(tasks) // 2 and started:
-                tp.adjustPoolsize(*case["adjust"])
+                guarded("adjust", lambda: tp.adjustPoolsize(*case["adjust"]))
             if c:
-                tp.callInThreadWithCallback(cb(i), mk(i, how))
+                ok = guarded(f"submit{i}", lambda: tp.callInThreadWithCallback(cb(i), mk(i, how)))
             else:
-                tp.callInThread(mk(i, how))
+                ok = guarded(f"submit{i}", lambda: tp.callInThread(mk(i, how)))
+            if not ok:
+                refused.add(i)
         if not started:
-            tp.start()
+            guarded("start", tp.start)
+        for _ in range(saw.count(len(tasks))):
+            guarded("startAWorker", tp.startAWorker)
         tp.stop()
     finally:
         if not tp.joined:
@@ -376,8 +413,10 @@ def pool_impl(case) -> str:
     out = []
     for i, (how, c) in enumerate(tasks):
         got = calls.get(i, [])
-        out.append(f"{i}{how}:r{ran.get(i, 0)}:c{len(got)}" + "".join(f":{'T' if ok else 'F'}{ty}" for ok, ty in got))
-    return " ".join(out) + f" |alive={len(alive)} stray={len(stray)} conc_ok={'T' if conc[1] <= limit else 'F' + str(conc[1])}"
+        out.append(f"{i}{how}{'X' if i in refused else ''}:r{ran.get(i, 0)}:c{len(got)}"
+                   + "".join(f":{'T' if ok else 'F'}{ty}" for ok, ty in got))
+    return (" ".join(out) + f" |alive={len(alive)} stray={len(stray)} conc_ok={'T' if conc[1] <= limit else 'F' + str(conc[1])}"
+            + f" create_ok={'T' if not over else 'F%d>=%d' % over[0]} refused={','.join(notes) or '-'}")
 
 
 _POOL_EXC = {"exc": "ValueError", "sysexit": "SystemExit", "genexit": "GeneratorExit", "base": "_Cancelled"}
@@ -391,8 +430,16 @@ def pool_oracle(case, obs):
     for (how, c), tok in zip(case["tasks"], toks):
         parts = tok.split(":")
         nran, ncall, outs = int(parts[1][1:]), int(parts[2][1:]), parts[3:]
+        if parts[0].endswith("X"):
+            # the submission itself was refused visibly (thread creation failed): it must then not run at all
+            if nran or ncall:
+                return Failure(case, f"task {tok}: its submission raised, yet it ran {nran} times / reported {ncall} times",
+                               "pool-refused-but-ran")
+            continue
         if nran != 1:
-            return Failure(case, f"task {tok}: ran {nran} times (submitted before stop())", "pool-task-not-once")
+            return Failure(case, f"task {tok}: ran {nran} times (submitted before stop()"
+                           + (", after an earlier thread-creation fault" if case.get("fault") is not None else "") + ")",
+                           "pool-task-not-once")
         if c and ncall != 1:
             return Failure(case, f"task {tok}: onResult called {ncall} times for a task that "
                            + ("returns" if how in ("ret", "slow") else f"raises {_POOL_EXC[how]}"),
@@ -405,6 +452,9 @@ def pool_oracle(case, obs):
                 return Failure(case, f"task {tok}: outcome {outs}, expected {want}", "pool-wrong-outcome:" + how)
     if "alive=0 stray=0" not in tail:
         return Failure(case, "stop() returned while pool threads are still alive: " + tail, "pool-stop-not-joined")
+    if "create_ok=T" not in tail:
+        return Failure(case, "a pool thread was created although idle + busy workers had reached the maximum: " + tail,
+                       "pool-created-at-limit")
     if "conc_ok=T" not in tail:
         return Failure(case, "more tasks ran at once than the pool's maximum: " + tail, "pool-over-limit")
     return None
@@ -418,6 +468,17 @@ def pool_gen(rng, tier):
             cases.append({"kind": "pool", "min": 0, "max": 2, "pre": 0, "adjust": None, "tasks": [[how, c]]})
             cases.append({"kind": "pool", "min": 1, "max": 1, "pre": 1, "adjust": None,
                           "tasks": [[how, c], ["ret", 1], [how, 1]]})
+    # idle workers already at the maximum, then startAWorker(): no thread may be created
+    for m in (1, 2, 3):
+        cases.append({"kind": "pool", "min": m, "max": m, "pre": 0, "adjust": None, "saw": [0, 0, 2],
+                      "tasks": [["ret", 1], ["slow", 1], ["ret", 1]]})
+        cases.append({"kind": "pool", "min": 0, "max": m, "pre": 0, "adjust": [m, m], "saw": [2, 3, 4, 4],
+                      "tasks": [["slow", 1], ["ret", 1], ["ret", 0], ["exc", 1]]})
+    # thread creation fails once (k-th factory call): refused visibly; everything afterwards still works
+    for k in (0, 1, 2):
+        for mn in (0, 2):
+            cases.append({"kind": "pool", "min": mn, "max": 3, "pre": 0, "adjust": None, "fault": k,
+                          "tasks": [["ret", 1], ["slow", 1], ["exc", 1], ["ret", 0], ["base", 1], ["ret", 1]]})
     for _ in range(60 if tier == "quick" else 1500):
         mx = rng.randrange(1, 5)
         mn = rng.randrange(0, mx + 1)
@@ -426,9 +487,15 @@ def pool_gen(rng, tier):
         if rng.random() < 0.4:
             a = rng.randrange(1, 5)
             adj = [rng.randrange(0, a + 1), a]
-        cases.append({"kind": "pool", "min": mn, "max": mx, "pre": rng.choice([0, 0, 0, rng.randrange(0, n + 1)]),
-                      "adjust": adj,
-                      "tasks": [[rng.choice(POOL_KINDS), int(rng.random() < 0.75)] for _ in range(n)]})
+        c = {"kind": "pool", "min": mn, "max": mx, "pre": rng.choice([0, 0, 0, rng.randrange(0, n + 1)]),
+             "adjust": adj,
+             "tasks": [[rng.choice(POOL_KINDS), int(rng.random() < 0.75)] for _ in range(n)]}
+        if rng.random() < 0.4:
+            c["saw"] = sorted(rng.randrange(0, n + 1) for _ in range(rng.randrange(1, 4)))
+        if rng.random() < 0.3:
+            c["pre"] = 0            # tasks queued before a start() that is refused may legitimately wait for ever
+            c["fault"] = rng.randrange(0, 4)
+        cases.append(c)
     return cases
 
 # --------------------------------------------------------------------------------------------------
